@@ -6,7 +6,8 @@ single operation are tokenised (harness/term.py) and compared with the model's t
 together with the control state (started, hook depth, sys.stdout / sys.stderr proxy depth, restore slots,
 recorded shape, task index); `with` blocks with an exception injected at every render-call index and at
 every block position; the Lean `replay` vs the Python screen oracle; the Lean specification (wf / printed /
-lastFrame, which the theorems are stated with) vs the independent Python tracker used below.
+lastFrame and, for any number of sessions, wfM / finished / liveFrameOf, which the theorems are stated with)
+vs the independent Python tracker used below.
 
 Direct evaluation (3d): the emitted characters of the real objects are replayed on the Python screen
 oracle after *every* operation and compared with what an independent tracker says must be visible:
@@ -21,14 +22,14 @@ from core import enc_bool, enc_opt, enc_str_list
 
 PROPERTY = "C10"
 
-# CODE VARIANT FLAGS — the value that matches the code in /repo as it is now (see Model/Live.lean `Cfg`); all three defects of
-# rich 9.10.0 as found are repaired there (BARE_BYPASS: 0 is the repaired value; START_GUARD, RESET_SHAPE: 1 is the repaired value)
+# CODE VARIANT FLAGS — the value that matches the code in /repo as it is now (see Model/Live.lean `Cfg`); all seven defects of
+# rich 9.10.0 as found (the seventh: of its first repair) are repaired there (BARE_BYPASS: 0 is the repaired value; for the other six 1 is the repaired value)
 BARE_BYPASS = 0   # 1: console.print()/log() without arguments call Console.line() and bypass the render hooks (F19, as found); 0: repaired, fix b373465
 START_GUARD = 1   # 0: as found, Progress.start() calls refresh() unprotected after installing hook / redirection / hidden cursor; 1: repaired, fix 4e4f7e5
-BLANK_FIX = 1     # 0: restore_cursor() goes up `height` rows: a transient display with an empty last frame leaves a blank line
-FLUSH_FIX = 1     # 0: stop() does not flush the FileProxy objects before its last refresh: text pending from print(..., end="") is written after the last frame
-GUARD_BASE = 1    # 0: the guard of Progress.start (fix 4e4f7e5) is `except Exception:` — KeyboardInterrupt / SystemExit / GeneratorExit get past it
-DISABLE_FIX = 1   # 0: Progress(disable=True).stop() still writes its line feed (and, transient, goes back up)
+BLANK_FIX = 1     # 0: as found, restore_cursor() goes up `height` rows: a transient display with an empty last frame leaves a blank line; 1: repaired, fix bd10e80
+FLUSH_FIX = 1     # 0: as found, stop() does not flush the FileProxy objects before its last refresh: text pending from print(..., end="") is written after the last frame; 1: repaired, fix 4c3921f
+GUARD_BASE = 1    # 0: the guard of Progress.start as fix 4e4f7e5 wrote it, `except Exception:` — KeyboardInterrupt / SystemExit / GeneratorExit get past it; 1: `except BaseException:`, fix fc3f517
+DISABLE_FIX = 1   # 0: as found, Progress(disable=True).stop() still writes its line feed (and, transient, goes back up); 1: repaired, fix 363ded9
 RESET_SHAPE = 1   # 0: as found, stop() keeps _live_render._shape, so a later start() erases rows of finished output; 1: repaired, fix b4577f9
 
 
@@ -38,7 +39,7 @@ RESET_SHAPE = 1   # 0: as found, stop() keeps _live_render._shape, so a later st
 class Tracker:
     def __init__(self, cfg, reset_shape=None, blank_fix=True):
         self.cfg = cfg
-        self.blank_fix = blank_fix   # True: the specification (a transient display leaves nothing); False: what today's code leaves
+        self.blank_fix = blank_fix   # True: the specification (a transient display leaves nothing); False: what the as-found code (before fix bd10e80) leaves
         self.reset_shape = RESET_SHAPE if reset_shape is None else reset_shape
         self.P = []            # printed lines, in order
         self.F = []            # frame on display (as the user should see it)
@@ -158,7 +159,7 @@ class Tracker:
                 if self.cfg.disable and self.spec_disable:
                     self.after_stop = []      # a disabled display has no frame: nothing, transient or not
                 elif self.cfg.transient:
-                    # nothing stays (`left_blank`: what today's code leaves for an empty last frame, used for wf/specm only)
+                    # nothing stays (`left_blank`: what the as-found code, before fix bd10e80, leaves for an empty last frame, used for wf/specm only)
                     self.after_stop = [""] if (self.shown_h == 0 and not self.blank_fix) else []
                 else:
                     # the final frame stays as finished output (Progress: padded to its tallest height)
@@ -877,8 +878,9 @@ def run(ctx):
     for j in range(n_with):
         kind, transient, ov, W, H = rng.choice(cfgs)
         cfg = make_cfg(rng, kind, transient, ov, W, H)
-        # (no split writes here: a line left pending in the FileProxy when the block is left is outside wf —
-        #  'prints end in a new line' — and outside the model)
+        # (no split writes here — a generator choice from before fix 4c3921f, when a line left pending in the FileProxy
+        #  at the end of the block was outside wf and outside the model; pending text is modelled now (Op.write, FLUSH_FIX)
+        #  and exercised by the session / arbitrary histories of step 2, which do split their writes)
         body = [o for o in rand_ops(rng, cfg, rng.randint(0, 8 if ctx.quick else 14), False, session=False, split_writes=False)]
         if kind == "progress" and rng.random() < 0.7:
             pass
@@ -978,7 +980,10 @@ MANIFEST = {
     "finished output ++ frame of the running session), cursor_never_above_region(_sessions), cursor_visible_after_stop / stop_shows_cursor / "
     "cursor_hidden_iff_started (every history, every fault predicate, every console kind), shown_fits_of_crop, cleanup_on_exception (for EVERY "
     "fault predicate over render-call indices, every body, every raise position: hook depth, sys.stdout/sys.stderr proxies and restore slots, "
-    "started flag and cursor visibility are restored and a body exception leaves the block), run_balanced. The theorems hold for the repaired code "
+    "started flag and cursor visibility are restored and a body exception leaves the block), init_balanced / run_balanced, "
+    "stream_writes_print_complete_lines (the redirected streams hand the console the complete lines of the character stream, however it was "
+    "chunked into writes), progress_row_truncation (an over-wide Progress row is cut as Text.truncate of the C05 Text model cuts it). "
+    "The theorems hold for the repaired code "
     "variants; machine-checked witnesses (decide) show the code as found breaks them: old_bare_print_leaves_remnant (F19), old_progress_start_leaks, "
     "old_restart_erases_printed_lines, old_transient_empty_frame_leaves_blank_line, old_pending_text_flushed_after_last_frame, "
     "old_start_guard_misses_base_exception, old_disabled_progress_writes_newline, and the known "
@@ -991,11 +996,17 @@ MANIFEST = {
     "wfM/finished/liveFrameOf vs an independent Python tracker; and the theorems' executable statements evaluated on rich's own output after "
     "every operation (plus, for a Live on a file: the file holds the printed lines and, once, the last frame).",
     "note": "wf excludes (explicitly, decidably): visible-overflow frames taller than the screen (documented by rich as not clearable; Progress has "
-    "no overflow handling at all), transient displays whose last frame leaves no free row (known finding, no small repair), text still pending in "
-    "a FileProxy when stop is called ONLY for the as-found stop — with the repaired stop (flushFix) live_screen and live_screen_sessions have no such hypothesis: pending text is printed above the last frame; prints that do "
+    "no overflow handling at all), transient displays whose last frame leaves no free row (known finding transient-final-frame-fills-screen, no "
+    "small repair: the one finding for which the check prints KNOWN-FINDING lines), prints that do "
     "not end in a new line (console.print(end='') shares its row with the first frame line and is erased with it: by design of the hook, see "
     "Props/C10.lean), consoles that are not plain terminals (files, dumb terminals, Progress(disable=True): modelled and tied, outside the screen "
-    "property). Parameters, not modelled: what the user renderable yields, user output of print/log (the lines a console without live display "
+    "property). NOT excluded: text still pending in a FileProxy when stop is called — live_screen and live_screen_sessions are stated for the "
+    "repaired stop (hypothesis flushFix = true, fix 4c3921f), which prints pending text above the last frame; wf only asks that the frames redrawn "
+    "by those two prints fit the screen (flushFits). live_screen_sessions additionally needs resetShape = true; all screen theorems need "
+    "bareBypass = false; cleanup_on_exception needs kind != progress or Cfg.guards (startGuard, and guardBase for BaseException-only faults). "
+    "Code variant flags, current values (= /repo with fixes b373465, 4e4f7e5, b4577f9, bd10e80, 4c3921f, fc3f517, 363ded9; every one is the "
+    "repaired value): BARE_BYPASS = 0, START_GUARD = 1, RESET_SHAPE = 1, BLANK_FIX = 1, FLUSH_FIX = 1, GUARD_BASE = 1, DISABLE_FIX = 1. "
+    "Parameters, not modelled: what the user renderable yields, user output of print/log (the lines a console without live display "
     "writes), the Progress column (one text column, frozen clock; over-wide rows truncated as Text.truncate does), the Status spinner frames "
     "(observed). Assumed: CPython reference counting for FileProxy objects; auto_refresh=False (threads are C11); no auto-wrap at the right "
     "margin, LF acts as CR LF (tty ONLCR); not Jupyter, not legacy Windows. Trusted: Lean kernel; axioms propext/Classical.choice/Quot.sound; "
